@@ -1,6 +1,6 @@
 /-
 C13 — line-protocol driver of the drop model (core only).
-  open <i> | parts <n>                         → ok
+  open <i> | parts <n> | close | eclose        → ok
   key <kid> <mst> k=v,k=v                      → ok        (declares a series key of the universe)
   write kid:t:f=v,f=v;…                        → ack
   flush                                        → ok [m=o|u|ou …]   (measurements that got a new ordered / out-of-order file)
@@ -209,6 +209,8 @@ def storeStep (d : DSt) : List String → Option (DSt × String)
       | none => some (d, "err shard-notfound")
     | _, _, _ => some (d, "bad-op")
   | ["eflush"] => some (d, "ok")
+  | ["eclose"] => some (d, "ok")
+  | ["close"] => some (d, "ok")
   | ["edropmst", db, mst, ids] =>
     match parseNatList ids with
     | some l => some ({ d with store := d.store.dropMst db mst l }, "ok")
